@@ -184,8 +184,10 @@ func (c *client) PushBlobChunked(ctx context.Context, repo string, chunkSize int
 		ctx:       ctx,
 		client:    c,
 		chunkSize: chunkSizeFromResponse(resp, chunkSize),
-		chunk:     make([]byte, 0, chunkSize),
-		location:  location,
+		// The chunk size is only a hint from the caller: don't pre-allocate
+		// more than we would have chosen ourselves; the slice grows as needed.
+		chunk:    make([]byte, 0, min(chunkSize, defaultChunkSize)),
+		location: location,
 	}, nil
 }
 
